@@ -180,8 +180,20 @@ pub fn hm_map_collect<K: Eq + std::hash::Hash, V, F: FnMut((K, V)) -> (K, V)>(m:
 
 // class S: Vec::sort_by_key(f) with a (usize, usize) key: stable sort = a permutation that is ascending in the key
 pub open spec fn key_le(a: (usize, usize), b: (usize, usize)) -> bool { a.0 < b.0 || (a.0 == b.0 && a.1 <= b.1) }
+// out is pre rearranged by the index map p; entries with equal keys keep their relative order (stability)
+pub open spec fn stable_rearrangement<T>(pre: Seq<T>, out: Seq<T>, key: spec_fn(T) -> (usize, usize), p: Seq<int>) -> bool {
+    &&& p.len() == out.len() && out.len() == pre.len()
+    &&& forall |i: int| 0 <= i < p.len() ==> 0 <= #[trigger] p[i] < pre.len() && out[i] == pre[p[i]]
+    &&& forall |i: int, j: int| 0 <= i < j < p.len() ==> #[trigger] p[i] != #[trigger] p[j]
+    &&& forall |i: int, j: int| 0 <= i < j < p.len() && key(out[i]) == key(out[j]) ==> #[trigger] p[i] < #[trigger] p[j]
+}
+pub open spec fn stable_sorted<T>(pre: Seq<T>, out: Seq<T>, key: spec_fn(T) -> (usize, usize)) -> bool {
+    exists |p: Seq<int>| #[trigger] stable_rearrangement(pre, out, key, p)
+}
+
+// class S: Vec::sort_by_key(f): a STABLE sort by a (usize, usize) key
 #[verifier::external_body]
-pub fn vec_sort_by_key2<T, F: Fn(&T) -> (usize, usize)>(v: &mut Vec<T>, f: F, Ghost(key): Ghost<spec_fn(T) -> (usize, usize)>)
+pub fn vec_sort_by_key_2<T, F: Fn(&T) -> (usize, usize)>(v: &mut Vec<T>, f: F, Ghost(key): Ghost<spec_fn(T) -> (usize, usize)>)
     requires
         forall |x: &T| #[trigger] f.requires((x,)),
         forall |x: &T, k: (usize, usize)| #[trigger] f.ensures((x,), k) ==> k == key(*x),
@@ -189,4 +201,17 @@ pub fn vec_sort_by_key2<T, F: Fn(&T) -> (usize, usize)>(v: &mut Vec<T>, f: F, Gh
         final(v)@.to_multiset() == old(v)@.to_multiset(),
         final(v)@.len() == old(v)@.len(),
         forall |i: int, j: int| 0 <= i < j < final(v)@.len() ==> key_le(key(#[trigger] final(v)@[i]), key(#[trigger] final(v)@[j])),
+        stable_sorted(old(v)@, final(v)@, key),
 { v.sort_by_key(f) }
+
+// class S: Vec::sort_unstable_by_key(f): sorted permutation, NO stability
+#[verifier::external_body]
+pub fn vec_sort_unstable_by_key_2<T, F: Fn(&T) -> (usize, usize)>(v: &mut Vec<T>, f: F, Ghost(key): Ghost<spec_fn(T) -> (usize, usize)>)
+    requires
+        forall |x: &T| #[trigger] f.requires((x,)),
+        forall |x: &T, k: (usize, usize)| #[trigger] f.ensures((x,), k) ==> k == key(*x),
+    ensures
+        final(v)@.to_multiset() == old(v)@.to_multiset(),
+        final(v)@.len() == old(v)@.len(),
+        forall |i: int, j: int| 0 <= i < j < final(v)@.len() ==> key_le(key(#[trigger] final(v)@[i]), key(#[trigger] final(v)@[j])),
+{ v.sort_unstable_by_key(f) }
